@@ -457,7 +457,7 @@ func TestC14(t *testing.T) {
 		for i := 0; i < nsteps; i++ {
 			s := OmniStep{Log: rapid.IntRange(0, c.NTiles).Draw(rt, "log")}
 			switch k := vlib.Uniform(rt, 10, "kind"); {
-			case k < 7:
+			case k < 6:
 				s.Kind = "grow"
 				if rapid.Bool().Draw(rt, "edge") {
 					s.Size = rapid.SampledFrom(omniSizes).Draw(rt, "size")
@@ -468,7 +468,7 @@ func TestC14(t *testing.T) {
 					s.Size = cur[s.Log] + 1
 				}
 				cur[s.Log] = s.Size
-			case k < 9:
+			case k < 8:
 				s.Kind = "restart"
 			default:
 				s.Kind = "fork"
@@ -485,7 +485,34 @@ func TestC14(t *testing.T) {
 	})
 }
 
+// TestC14Fixed: schedules that every run should contain regardless of what rapid draws:
+// a fork on durable storage followed by growth of the *other* logs (a refused update must
+// not wedge the service), and single steps across the top power of two.
+func TestC14Fixed(t *testing.T) {
+	st := vlib.StatsFor("C14", "fixed", "fixed schedules: fork on SQLite then growth of the other logs and a restart; growth 255->257 and 65535->65537 in one step on both log types; "+ruleC14)
+	for _, c := range []*OmniCase{
+		{Storage: "sqlfile", NTiles: 1, Steps: []OmniStep{{Kind: "grow", Log: 0, Size: 300}, {Kind: "grow", Log: 1, Size: 5}, {Kind: "fork", Log: 0, Size: 400}, {Kind: "grow", Log: 1, Size: 9}, {Kind: "restart"}, {Kind: "grow", Log: 1, Size: 300}}},
+		{Storage: "sqlfile", NTiles: 1, Steps: []OmniStep{{Kind: "grow", Log: 1, Size: 40}, {Kind: "grow", Log: 0, Size: 7}, {Kind: "fork", Log: 1, Size: 40}, {Kind: "grow", Log: 0, Size: 12}}},
+		{Storage: "mem", NTiles: 1, Steps: []OmniStep{{Kind: "grow", Log: 0, Size: 255}, {Kind: "grow", Log: 1, Size: 255}, {Kind: "grow", Log: 0, Size: 257}, {Kind: "grow", Log: 1, Size: 257}, {Kind: "grow", Log: 0, Size: 65535}, {Kind: "grow", Log: 1, Size: 65535}, {Kind: "grow", Log: 0, Size: 65537}, {Kind: "grow", Log: 1, Size: 65537}}},
+	} {
+		nt, classes, err := runOmni(c)
+		st.Record(omniHash(c), nt, classes, vlib.SampleOf(c))
+		if err != nil {
+			vlib.SaveFailure("C14", "fixed", c, err)
+			t.Fatalf("C14 violated: %v", err)
+		}
+	}
+}
+
 func init() {
+	vlib.Replayers["C14/fixed"] = func(raw json.RawMessage) error {
+		var c OmniCase
+		if err := json.Unmarshal(raw, &c); err != nil {
+			return err
+		}
+		_, _, err := runOmni(&c)
+		return err
+	}
 	vlib.Replayers["C14/main"] = func(raw json.RawMessage) error {
 		var c OmniCase
 		if err := json.Unmarshal(raw, &c); err != nil {
